@@ -155,6 +155,19 @@ func checkC19(c *Ctx) {
 			}
 		})
 		c.Check(ok && n > 0, "C19.5", "Contains: bounds test before indexing", p.FuncPos(ct), "isSet is reached only under byteIdx < len(data)", "isSet reachable with byteIdx >= len(data)")
+		// id 0 has bit index -1 (a negative shift): it must be answered before indexing
+		okZero := true
+		eachInstr(ct, func(in ssa.Instruction) {
+			call, isCall := in.(*ssa.Call)
+			if !isCall || call.Call.StaticCallee() == nil || call.Call.StaticCallee().Name() != "isSet" {
+				return
+			}
+			if !hasCmp(fl.At(in), "!=", is("p1"), is("c:0")) {
+				okZero = false
+			}
+		})
+		c.Check(okZero && n > 0, "C19.5", "Contains: id 0 is answered without indexing", p.FuncPos(ct), "isSet is reached only under id != 0 (index(0) has bit index -1)",
+			"Contains(0) reaches isSet with bit index -1: 1 << -1 panics on a non-empty bit field (a membership query must be total)")
 	}
 	if ad := p.Method("security/crypto", "Bitfield", "Add"); ad != nil {
 		fl := NewFlow(p, ad)
@@ -230,6 +243,45 @@ func c19Multi(c *Ctx) {
 			v, d := dupGate(c, fl, successExits(fl, 0))
 			c.add("C19.1", scheme+"."+m+": size of a decoded signer list is trusted only if signers are distinct", p.FuncPos(fn), v, d, true)
 		}
+	}
+	// (d) Contains is an order-independent membership test (signer lists are in arrival order, never sorted)
+	for _, fn := range p.ModFuncs {
+		if fn.Name() != "Contains" || fn.Origin() == nil || !strings.Contains(fn.String(), "crypto.Multi[") {
+			continue
+		}
+		ok := false
+		detail := "no full scan recognised"
+		eachInstr(fn, func(in ssa.Instruction) {
+			call, isCall := in.(*ssa.Call)
+			if !isCall || call.Call.StaticCallee() == nil {
+				return
+			}
+			name := call.Call.StaticCallee().String()
+			if strings.HasPrefix(name, "slices.BinarySearch") || strings.HasPrefix(name, "sort.Search") {
+				detail = "uses " + name[:strings.Index(name+"[", "[")] + ", which is only correct on a sorted list"
+				return
+			}
+			if strings.HasPrefix(name, "slices.ContainsFunc") || strings.HasPrefix(name, "slices.IndexFunc") {
+				if cl := funcOfValue(call.Call.Args[1]); cl != nil {
+					ways := trueEdges(NewFlow(p, cl))
+					if len(ways) == 1 && hasCmp(ways[0], "==", func(k string) bool { return strings.Contains(k, ".Signer(p0)") || strings.Contains(k, ".Signer(*p0)") }, func(k string) bool { return strings.HasPrefix(k, "fv:") || strings.HasPrefix(k, "*fv:") }) {
+						ok = true
+					}
+				}
+			}
+		})
+		if !ok && !strings.HasPrefix(detail, "uses") {
+			// explicit loop over all elements returning true on a signer match
+			fl := NewFlow(p, fn)
+			for _, r := range returnsOf(fn) {
+				if isBoolConst(retValue(r, 0), true) && hasCmp(fl.At(r), "==", func(k string) bool { return strings.Contains(k, ".Signer(p0[") }, is("p1")) {
+					ok = true
+				}
+			}
+		}
+		c.Check(ok, "C19.1", "Multi.Contains scans every entry", p.FuncPos(fn),
+			"membership is decided by comparing id with the signer of every entry, independent of their order", "Multi.Contains "+detail+": Combine's overlap check then misses repeated signers in lists that are in arrival order")
+		break
 	}
 	// (c) Len is len(slice)
 	for _, fn := range p.ModFuncs {
